@@ -209,6 +209,53 @@ pub fn check(sc: &Scenario, env: &mut Env) -> Result<Outcome, HarnessError> {
                 }
             }
         }
+        // "... and only they are skipped": a directory the glob walk feeds and that contains a match
+        // (by the model of the tree, fault-free scenarios only) is not a tree the glob may discard:
+        // its children must be fed by the underlying walk.
+        if let Some(glob) = walk_glob(w, &env.root_text) {
+            use wax::Program;
+            let space = Space::of(w, &env.root_text);
+            let model = model_of(sc)?;
+            let shift = crate::exec::depth_shift(w, &env.root_text);
+            let (_, max) = w.depth.shifted(shift).window();
+            let visits = model.traverse(&space.start, w.link, None);
+            if visits.iter().all(|v| v.fault.is_none()) {
+                let depth_of_rel = |p: &str| std::path::Path::new(&space.rel(p)).components().count();
+                let mut skipped: Vec<String> = Vec::new();
+                for d in u.entries.iter().filter(|e| e.is_dir) {
+                    if max.map_or(false, |m| depth_of_rel(&d.wp) >= m) {
+                        continue;
+                    }
+                    let has_match = visits.iter().any(|v| {
+                        is_below(&v.path, &d.wp)
+                            && max.map_or(true, |m| depth_of_rel(&v.path) <= m)
+                            && glob.is_match(space.rel(&v.path).as_str())
+                    });
+                    if !has_match {
+                        continue;
+                    }
+                    for k in visits.iter().filter(|v| parent(&v.path) == d.wp && v.path != d.wp) {
+                        if !u.index.contains_key(&k.path) {
+                            skipped.push(format!("unfed:{}", k.path));
+                        }
+                    }
+                }
+                if !skipped.is_empty() {
+                    skipped.sort();
+                    skipped.dedup();
+                    out.violate(
+                        "C13",
+                        "skip",
+                        wi,
+                        format!(
+                            "glob {:?}: directories that contain a match were skipped by the glob walk itself (entries never fed): {:?}",
+                            w.source, skipped
+                        ),
+                        skipped,
+                    );
+                }
+            }
+        }
         if ex.nontrivial {
             out.nontrivial = true;
         }
